@@ -98,7 +98,7 @@ fn words_to_chunks(words: &[Word], chunks_out: &mut [&mut [Word]], chunk_bits: u
         let words_per_chunk = chunk_bits / WORD_BITS_USIZE;
         for (i, chunk_out) in chunks_out.iter_mut().enumerate() {
             let start_pos = i * words_per_chunk;
-            let end_pos = start_pos + words_per_chunk;
+            let end_pos = (start_pos + words_per_chunk).min(words.len());
             chunk_out[..end_pos - start_pos].copy_from_slice(&words[start_pos..end_pos]);
         }
     } else {
